@@ -105,13 +105,14 @@ Definition outcome_agrees (nc : bool) (o : outcome) (e : obs_event) : bool :=
 Definition stops (o : outcome) : bool := match o with ConnErr _ | NeedMore => true | _ => false end.
 
 (** the recv loop of the harness (stops after a connection error or [n] calls), on the flat stream ... *)
-Fixpoint run_flat (tbl : oracle) (n : nat) (msize : N) (s : list N) : list outcome :=
+Fixpoint run_flat_l (lk : N -> N -> lookup_result) (n : nat) (msize : N) (s : list N) : list outcome :=
   match n with
   | O => []
   | S n' =>
-      let o := fst (recv lookup_reg dec_spec true msize s) in
-      o :: (if stops o then [] else run_flat tbl n' msize (dropN (consumed o) s))
+      let o := fst (recv lk dec_spec true msize s) in
+      o :: (if stops o then [] else run_flat_l lk n' msize (dropN (consumed o) s))
   end.
+Definition run_flat (tbl : oracle) := run_flat_l lookup_reg.
 
 (** ... and through the scripted reader *)
 Fixpoint run_rd (tbl : oracle) (n : nat) (p : path) (msize : N) (sc : script) (s : list N) : option (list outcome) :=
@@ -156,7 +157,7 @@ Definition is_nil' (r : list obs_event) : bool := match r with [] => true | _ =>
 
 (** what the property says about one stream, evaluated on the observed events only:
     walk the stream by its size fields *)
-Fixpoint walk_ok (msize : N) (s : list N) (evs : list obs_event) : bool :=
+Fixpoint walk_ok_l (lk : N -> N -> lookup_result) (msize : N) (s : list N) (evs : list obs_event) : bool :=
   match evs with
   | [] => true
   | e :: r =>
@@ -170,21 +171,22 @@ Fixpoint walk_ok (msize : N) (s : list N) (evs : list obs_event) : bool :=
              ("carrying exactly the field values encoded in it, or rejected": unknown type, fixed part
              does not fit, inconsistent counts, short body); consumed = declared size either way *)
           let body := takeN (size - 7) (dropN 7 s) in
-          (match plan_of lookup_reg (hdr_tag s) (hdr_typ s) (size - 7) with
+          (match plan_of lk (hdr_tag s) (hdr_typ s) (size - 7) with
            | PDiscard t => (ev_kind e =? 1) && (ev_tag' e =? t)
            | PBody fixed =>
                if dec_spec (hdr_typ s) (takeN fixed body) (dropN fixed body)
                then (ev_kind e =? 2) && (ev_tag' e =? hdr_tag s) && (ev_typ' e =? hdr_typ s)
                else (ev_kind e =? 1) && (ev_tag' e =? noTag)
            end) &&
-          (ev_consumed e =? size) && walk_ok msize (dropN size s) r
+          (ev_consumed e =? size) && walk_ok_l lk msize (dropN size s) r
         else (* the stream ends inside this frame: a connection error; the rejection of a frame that was
                 being thrown away (unknown type, fixed part does not fit) may still be reported; never a
                 message and never a decoder verdict on a body that did not arrive *)
           ((ev_kind e =? 0) ||
-           ((ev_kind e =? 1) && match plan_of lookup_reg (hdr_tag s) (hdr_typ s) (size - 7) with PDiscard _ => true | _ => false end)) &&
-          (ev_consumed e <=? len s) && walk_ok msize (dropN (ev_consumed e) s) r
+           ((ev_kind e =? 1) && match plan_of lk (hdr_tag s) (hdr_typ s) (size - 7) with PDiscard _ => true | _ => false end)) &&
+          (ev_consumed e <=? len s) && walk_ok_l lk msize (dropN (ev_consumed e) s) r
   end.
+Definition walk_ok := walk_ok_l lookup_reg.
 
 (** frames a server must answer: well-delimited ones before the first refused / incomplete header;
     with each its type, tag and the reply the protocol table demands (tag, must be Rlerror) *)
@@ -241,7 +243,8 @@ Fixpoint split_bufs (lens : list N) (acc : list N) : list (list N) :=
 
 Inductive fcase :=
 | CRegistry (entries : list (N * option N)) (hl maxlen notag : N)
-| CLoop (mode : N)            (* 0 scripted io.Reader; 1 unix socket (recvmsg path); 2 unix socket behind a plain io.Reader *)
+| CLoop (mode : N)            (* 0 scripted io.Reader; 1 unix socket (recvmsg path); 2 unix socket behind a plain io.Reader;
+                                 3 scripted io.Reader with an injected non-EOF error (no model: property only) *)
         (msize : N) (max : nat) (stream : list N) (sc : script) (otbl : list (N * N * N * bool))
         (events : list obs_event) (reads : list N)
         (has_base : bool) (base : list obs_event)      (* the same stream received unsegmented *)
@@ -250,6 +253,8 @@ Inductive fcase :=
            (hang returned verok : bool)
 | CVec (mode : N)             (* 0 scripted io.Reader, 1 unix socket *)
        (bufs : list N) (stream : list N) (sc : script) (n err : N) (contents : list (list N))
+| CClient (msize : N) (max : nat) (stream : list N) (pending : list (N * N))   (* client-side recv: (tag, expected R type) *)
+          (events : list obs_event)
 | CAlloc (msize : N) (stream : list N) (alloc : N)     (* bytes allocated (runtime TotalAlloc) during one recv *)
 | CFlag (ok : bool).           (* a comparison made by the harness itself (300 KB payload through a socket) *)
 
@@ -278,6 +283,59 @@ Definition alloc_bound (msize : N) (s : list N) : N :=
   if len s <? 7 then 65536
   else if hdr_check msize (le32 s) then 64 * le32 s + 65536 else 65536.
 
+(** an injected read error: the same events as unsegmented up to some point, then a connection error *)
+(** same message / same rejection; the bytes consumed may differ for a rejected frame whose discarding
+    was cut short by the error (recv ignores errors while discarding and reports the rejection) *)
+Definition obs_same (a b : obs_event) : bool :=
+  match a, b with
+  | OEv k t ty hp p c, OEv k' t' ty' hp' p' c' =>
+      (k =? k') && (t =? t') && (ty =? ty') && Bool.eqb hp hp' && list_eqb p p' && ((k =? 1) || (c =? c'))
+  end.
+
+Fixpoint prefix_then_conn (evs base : list obs_event) : bool :=
+  match evs with
+  | [] => false
+  | [e] => (ev_kind e =? 0) || match base with [b] => obs_same e b | _ => false end
+  | e :: r => match base with b :: br => obs_same e b && prefix_then_conn r br | [] => false end
+  end.
+
+(** the lookup of Client.handleOne: no call pending under this tag => ErrUnexpectedTag; an Rlerror is
+    always accepted; any other type must be the one the call expects *)
+Definition lookup_client (pending : list (N * N)) (tag typ : N) : lookup_result :=
+  match assocN tag pending with
+  | None => LkUnknown
+  | Some expected =>
+      if typ =? p9_msgRlerror then LkPlain
+      else if typ =? expected then lookup_reg tag typ else LkUnknown
+  end.
+
+(** Client.handleOne over the stream: a delivered reply retires its call; a rejected frame fails every
+    pending call (handleOne broadcasts the error and clears the table); the rejection's tag is not visible *)
+Fixpoint run_client (n : nat) (msize : N) (pending : list (N * N)) (s : list N) : list outcome :=
+  match n with
+  | O => []
+  | S n' =>
+      let o := fst (recv (lookup_client pending) dec_spec true msize s) in
+      o :: match o with
+           | Deliver t _ _ _ c => run_client n' msize (filter (fun x => negb (fst x =? t)) pending) (dropN c s)
+           | Reject _ c => run_client n' msize [] (dropN c s)
+           | _ => []
+           end
+  end.
+
+Definition client_agrees (o : outcome) (e : obs_event) : bool :=
+  match o, e with
+  | Reject _ c, OEv k _ _ _ _ c' => (k =? 1) && (c =? c')
+  | _, _ => outcome_agrees false o e
+  end.
+
+Fixpoint clients_agree (os : list outcome) (es : list obs_event) : bool :=
+  match os, es with
+  | [], [] => true
+  | o :: os', e :: es' => client_agrees o e && clients_agree os' es'
+  | _, _ => false
+  end.
+
 Definition agrees (c : fcase) : bool :=
   match c with
   | CRegistry entries hl mx nt =>
@@ -285,6 +343,7 @@ Definition agrees (c : fcase) : bool :=
   | CLoop mode msize max stream sc otbl events reads _ _ =>
       let tbl := slice_oracle stream otbl in
       let flat_ok := outcomes_agree (negb (mode =? 0)) (run_flat tbl max msize stream) events in
+      if mode =? 3 then true else
       if mode =? 0 then
         match run_rd tbl max PGeneric msize sc stream with
         | Some os => outcomes_agree false os events
@@ -321,6 +380,8 @@ Definition agrees (c : fcase) : bool :=
       | FEof m _ _ => (err =? 1) && (n =? m) && list_eqb (takeN m (List.concat contents)) (takeN m stream)
       | _ => false
       end
+  | CClient msize max stream pending events =>
+      clients_agree (run_client max msize pending stream) events
   | CAlloc _ _ _ => true
   | CFlag _ => true
   end.
@@ -334,7 +395,8 @@ Definition property_holds (c : fcase) : bool :=
        else negb (existsb (fun e => ev_kind e =? 3) events)) &&
       forallb (fun n => n <=? bound msize) reads &&
       (* C17: same messages and payload bytes as the unsegmented stream *)
-      (if has_base && script_positive sc then obs_list_eqb events base else true)
+      (if mode =? 3 then prefix_then_conn events base
+       else if has_base && script_positive sc then obs_list_eqb events base else true)
   | CBig msize size avail kind consumed maxread =>
       negb (kind =? 3) && (maxread <=? bound msize) &&
       (if negb (hdr_check msize size) then (kind =? 0) && (consumed =? 7)
@@ -362,6 +424,19 @@ Definition property_holds (c : fcase) : bool :=
       if sumN bufs <=? len stream then
         (err =? 0) && (n =? sumN bufs) && list_eqb (List.concat contents) (takeN (sumN bufs) stream)
       else (err =? 1)
+  | CClient msize max stream pending events =>
+      negb (existsb (fun e => ev_kind e =? 3) events) &&
+      match events with
+      | [] => true
+      | OEv k t ty hp p c :: _ =>
+          (* the first frame, judged by the protocol table with the initial pending calls; a rejection's tag
+             is not observable through handleOne: take the one the table demands *)
+          let t' := if k =? 1 then
+                      match plan_of (lookup_client pending) (hdr_tag stream) (hdr_typ stream) (le32 stream - 7) with
+                      | PDiscard x => x | PBody _ => noTag end
+                    else t in
+          walk_ok_l (lookup_client pending) msize stream [OEv k t' ty hp p c]
+      end
   | CAlloc msize stream alloc => alloc <=? alloc_bound msize stream
   | CFlag ok => ok
   end.
